@@ -101,20 +101,7 @@ fn io_parse_indices_forms() {
     }
 }
 
-// @ob props=C14 tier=quick kind=B cfg=geom-std timeout=1800
-// @fn parse_obj
-// @bound the inputs "f a b c" with a, b, c single digits 1..9 and no vertex line (the real line splitter, tokenizer and str::parse are executed)
-// @clause a face that refers to vertices that were never defined makes parse_obj return an error: it never reaches Mesh::new's assertion
-#[cfg(not(verif_skip_io_faces_without_vertices))]
-#[kani::proof]
-#[kani::unwind(12)]
-fn io_faces_without_vertices() {
-    let d: [u8; 3] = kani::any();
-    kani::assume(d[0] >= b'1' && d[0] <= b'9' && d[1] >= b'1' && d[1] <= b'9' && d[2] >= b'1' && d[2] <= b'9');
-    let src = [b'f', b' ', d[0], b' ', d[1], b' ', d[2]];
-    let r = parse_obj(src);
-    kani::cover!(true);
-    assert!(r.is_err());
-}
+// Tried and dropped: parse_obj on the inputs "f a b c" (three symbolic digits, no vertex line) -- 21 min and 6.7 GB without
+// a verdict; the whole-parser obligations stay out of reach (DESIGN.md C14).
 
 include!("gen/dispatch_io.rs");
